@@ -106,11 +106,23 @@ class FollowFTPFilter(BaseURLFilter):
             return True
 
 
+def _clean_hostname_list(hostnames):
+    '''Return the list as hostnames are compared: lower case, no empty item.
+
+    Hostnames are case-insensitive and an empty item (``a.test,``) names
+    nothing: as a suffix it would match every hostname.
+    '''
+    if hostnames is None:
+        return None
+
+    return [hostname.lower() for hostname in hostnames if hostname]
+
+
 class BackwardDomainFilter(BaseURLFilter):
     '''Return whether the hostname matches a list of hostname suffixes.'''
     def __init__(self, accepted=None, rejected=None):
-        self._accepted = accepted
-        self._rejected = rejected
+        self._accepted = _clean_hostname_list(accepted)
+        self._rejected = _clean_hostname_list(rejected)
 
     def test(self, url_info, url_table_record):
         test_domain = url_info.hostname
@@ -135,8 +147,8 @@ class BackwardDomainFilter(BaseURLFilter):
 class HostnameFilter(BaseURLFilter):
     '''Return whether the hostname matches exactly in a list.'''
     def __init__(self, accepted=None, rejected=None):
-        self._accepted = accepted
-        self._rejected = rejected
+        self._accepted = _clean_hostname_list(accepted)
+        self._rejected = _clean_hostname_list(rejected)
 
     def test(self, url_info, url_table_record):
         test_domain = url_info.hostname
